@@ -36,6 +36,12 @@ ConvBase(B, c) ==
                           [] c = "Sfalse" -> "b:false" [] c = "E" -> "b:false" [] c = "Strue" -> "b:true"
                           [] c = "STrue" -> "b:true" [] c = "SFALSE" -> "b:false" [] c = "SFalse" -> "b:false"
                           [] OTHER -> "ERR")
+    \* fallback helpers deserialize_as_i64_or_none / deserialize_as_f64_or_none: the value when the
+    \* cell is numeric (numbers, booleans, numeric strings), None otherwise -- never an error
+    [] B = "I64OrNone" -> (CASE c = "I7" -> "i:7" [] c = "F2" -> "i:2" [] c = "F1.5" -> "i:1" [] c = "S12" -> "i:12"
+                             [] c = "B1" -> "i:1" [] c = "B0" -> "i:0" [] OTHER -> "none")
+    [] B = "F64OrNone" -> (CASE c = "I7" -> "f:7.0" [] c = "F2" -> "f:2.0" [] c = "F1.5" -> "f:1.5" [] c = "S12" -> "f:12.0"
+                             [] c = "S1.5" -> "f:1.5" [] c = "B1" -> "f:1.0" [] c = "B0" -> "f:0.0" [] OTHER -> "none")
     [] B = "Data"   -> (CASE c = "E" -> "d:E" [] c = "I7" -> "d:I7" [] c = "F1.5" -> "d:F1.5"
                           [] c = "Sx" -> "d:Sx" [] c = "B1" -> "d:B1" [] OTHER -> "ERR")
 Conv(T, c) == IF IsOpt(T) /\ c = "E" THEN "none" ELSE ConvBase(Base(T), c)
@@ -49,6 +55,8 @@ OkCodes(T) ==
               [] B = "i64"  -> {"I7", "F2", "F1.5", "S12", "Sx"}
               [] B = "bool" -> {"B1", "B0", "STRUE", "Sfalse", "Strue", "STrue", "SFALSE", "SFalse", "E", "Sx"}
               [] B = "Data" -> {"E", "I7", "F1.5", "Sx", "B1"}
+              [] B = "I64OrNone" -> {"E", "I7", "F2", "F1.5", "S12", "S1.5", "Sx", "B1", "B0", "STRUE"}
+              [] B = "F64OrNone" -> {"E", "I7", "F2", "F1.5", "S12", "S1.5", "Sx", "B1", "B0", "STRUE"}
   IN ok \cup (IF IsOpt(T) THEN {"E"} ELSE {})
 
 --------------------------------------------------------------------------
